@@ -144,6 +144,7 @@ def r03b(ctx, rep):
     lab = Labels(gc, seed=seed, call_transfer=transfer)
     sinks = {}
     where = {}
+    where_bb = {}
     for bb, t in gc.calls():
         al = lab.call_arg_labels(t, bb)
         m = MARKERS.get(callee(t))
@@ -152,6 +153,7 @@ def r03b(ctx, rep):
             for l in al[1]:
                 sinks.setdefault(l, set()).add(m)
                 where.setdefault(l, []).append(t["loc"])
+                where_bb.setdefault(l, []).append(bb)
         for ga in t.get("gargs", []):
             if ga.get("closure"):
                 ks = closure_param_sinks(facts, ga["closure"])
@@ -160,6 +162,8 @@ def r03b(ctx, rep):
                         for l in a:
                             sinks.setdefault(l, set()).update(ks)
                             where.setdefault(l, []).append(t["loc"])
+                            where_bb.setdefault(l, []).append(bb)
+    sweeps = [bb for bb, t in gc.calls() if callee(t) == SWEEP]
     # a struct-typed field read whole (e.g. `&self.stack` passed to an accessor) is refined by `transfer`;
     # a label that stays unrefined (e.g. `stack`) covers all its sub-roots
     for label, kind, why in roots:
@@ -173,6 +177,15 @@ def r03b(ctx, rep):
                      [gc.span])
             continue
         rep.ok("R03b", key, "Vm.%s is traced (reaches %s)" % (label, ", ".join(sorted(got))), locs[:2])
+        # unconditionally: some marking of this root happens on every path to the sweep
+        bbs = where_bb.get(label, []) + (where_bb.get(base, []) if base != label else [])
+        if sweeps:
+            uncond = any(gc.dominates(b, sw) for b in bbs for sw in sweeps)
+            (rep.ok if uncond else rep.fail)(
+                "R03b", "R03b|always|%s" % label,
+                "Vm.%s is marked on every path that reaches the sweep" % label if uncond else
+                "Vm.%s is marked only on some paths to the sweep (its marking sits under a condition): on the other paths "
+                "what it references is reclaimed while the register still points at it" % label, locs[:2])
         key = "R03b|adequacy|%s" % label
         if kind == "vcell" and "mark_vcell" not in got:
             rep.fail("R03b", key, "Vm.%s is typed VCell (every variant admissible) but reaches only the index-only "
@@ -418,6 +431,20 @@ def r03d(ctx, rep, empty):
             rep.fail("R03c", "R03c|%s|%s.%d" % (MARKERS[mp], v, i),
                      "%s has no marking for VCell::%s field %d and no placement rule covers that variant: the object "
                      "it references is reclaimed while the cell is live" % (MARKERS[mp], v, i))
+    # the permitted place of a variant must lie outside what the marker with the empty arm looks at
+    DOMAIN = {MARK: {HEAP + "put", HEAP + "maybe_put"},
+              MARK_VCELL: {STACK + "push", "marwood::vm::environment::LexicalEnvironment::put", "marwood::vm::vector::Vector::put"}}
+    for mp, v, i in empty:
+        if v in PERMITTED and mp in DOMAIN:
+            inside = PERMITTED[v][0] & DOMAIN[mp]
+            key = "R03d|domain|%s|%s" % (MARKERS[mp], v)
+            if inside:
+                rep.fail("R03d", key, "%s marks nothing for VCell::%s, but values of that variant are stored through %s — a place "
+                         "%s is responsible for (%s): what they reference is reclaimed while the holder is live" % (
+                             MARKERS[mp], v, ", ".join(short_path(x) for x in sorted(inside)), MARKERS[mp], PERMITTED[v][1]), [facts.fns[mp].span])
+            else:
+                rep.ok("R03d", key, "%s may skip VCell::%s: such values are stored only through %s, which the other marker covers" % (
+                    MARKERS[mp], v, ", ".join(short_path(x) for x in sorted(PERMITTED[v][0]))), [facts.fns[mp].span])
     for v in variants:
         if v not in PERMITTED:
             continue
